@@ -2,12 +2,12 @@ module bklverif
 
 go 1.24.0
 
-require github.com/gopatchy/bkl v0.0.0
-
 require (
-	github.com/pelletier/go-toml/v2 v2.2.3 // indirect
-	golang.org/x/exp v0.0.0-20250210185358-939b2ce775ac // indirect
-	gopkg.in/yaml.v3 v3.0.1 // indirect
+	github.com/gopatchy/bkl v0.0.0
+	github.com/pelletier/go-toml/v2 v2.2.3
+	gopkg.in/yaml.v3 v3.0.1
 )
+
+require golang.org/x/exp v0.0.0-20250210185358-939b2ce775ac // indirect
 
 replace github.com/gopatchy/bkl => /repo
